@@ -41,7 +41,7 @@ var purePrefixes = []string{
 	"context.Background", "context.TODO", "invoke context.Context.",
 	"invoke net.PacketConn.LocalAddr", "invoke net.Conn.LocalAddr", "invoke net.Conn.RemoteAddr", "invoke net.Listener.Addr",
 	"github.com/pion/turn/v5/internal/allocation.Protocol", "(github.com/pion/turn/v5/internal/allocation.Protocol).String",
-	"(*sync.WaitGroup).", "(*sync.Once).", "math/rand.", "sort.",
+	"(*sync.WaitGroup).", "(*sync.Once).", "math/rand.", "sort.", "github.com/pion/randutil.GenerateCryptoRandomString",
 }
 
 func isAssumedPure(key string) bool {
@@ -631,10 +631,18 @@ func (fx *FnCtx) mapKeyFromLeaves(kt types.Type, xs []string) string {
 	}
 	fx.sol.Declare(name, "(declare-fun "+name+" ("+strings.Join(sorts, " ")+") Int)")
 	t := "(" + name + " " + strings.Join(xs, " ") + ")"
+	hasBound := hasBoundVar(t)
+	if !hasBound && len(xs) > 4 {
+		t = fx.sol.Define("key", t, "Int", fx.fresh)
+	}
 	for i, x := range xs {
 		inv := fmt.Sprintf("%s_inv%d", name, i)
 		fx.sol.Declare(inv, "(declare-fun "+inv+" (Int) Int)")
-		fx.sol.Assert(tEq("("+inv+" "+t+")", x))
+		if hasBound {
+			fx.sol.Assert(tEq("("+inv+" "+t+")", x))
+		} else {
+			fx.sol.AssertOnce(tEq("("+inv+" "+t+")", x))
+		}
 	}
 	return t
 }
